@@ -382,4 +382,43 @@ theorem mergeSort_pair {α} (le : α → α → Bool) (a b : α) :
     [a, b].mergeSort le = if le a b then [a, b] else [b, a] := by
   simp [List.mergeSort, List.MergeSort.Internal.splitInTwo, List.merge]
 
+/-! ## Round D: rendering a sorted list is a rearrangement of rendering the given list; lengths -/
+
+theorem flatMap_sort_perm {α} (le : α → α → Bool) (f : α → Bytes) (l : List α) :
+    ((l.mergeSort le).flatMap f).Perm (l.flatMap f) :=
+  (List.mergeSort_perm l le).flatMap_right f
+
+theorem renderField_perm (f : Field) : (renderField f).Perm (renderFieldGiven f) := by
+  unfold renderField renderFieldGiven sortStrings
+  exact List.Perm.append_left _ (flatMap_sort_perm _ _ _)
+
+theorem flatMap_perm_congr {α} {f g : α → Bytes} (l : List α) (h : ∀ a, (f a).Perm (g a)) :
+    (l.flatMap f).Perm (l.flatMap g) := by
+  induction l with
+  | nil => simp
+  | cons a l ih => simpa [List.flatMap_cons] using List.Perm.append (h a) ih
+
+theorem renderForm_perm (F : Form) : (renderForm F).Perm (renderFormGiven F) := by
+  unfold renderForm renderFormGiven
+  exact List.Perm.append_left _
+    ((flatMap_sort_perm _ _ _).trans (flatMap_perm_congr _ renderField_perm))
+
+theorem length_flatMap_eq {α} (f : α → Bytes) (g : α → Nat) (l : List α)
+    (h : ∀ a, (f a).length = g a) : (l.flatMap f).length = (l.map g).sum := by
+  induction l with
+  | nil => simp
+  | cons a l ih => simp [List.flatMap_cons, h, ih]
+
+theorem renderFieldGiven_length (f : Field) : (renderFieldGiven f).length = f.size := by
+  unfold renderFieldGiven Field.size
+  rw [List.length_append, List.length_append, length_flatMap_eq renderFeat strSize]
+  · simp [lt]
+  · intro a; simp [renderFeat, strSize, lt]
+
+theorem renderFormGiven_length (F : Form) : (renderFormGiven F).length = F.size := by
+  unfold renderFormGiven Form.size
+  rw [List.length_append, List.length_append, length_flatMap_eq _ _ _ renderFieldGiven_length]
+  simp [lt]
+
+
 end XmppModel.Caps
